@@ -14,9 +14,14 @@ Cls(live) == CASE live = "live" -> <<"object">> [] live = "recycled" -> <<"objec
                [] live = "conflict" -> <<"conflict", "object", "recycled">> [] OTHER -> <<"object", "tombstone">>
 Ent(i, u, live, n) ==
   IF live = "tombstone"
-  THEN [id |-> i, uuid |-> u, live |-> live, a |-> [x \in {"class"} |-> Cls(live)], c |-> <<>>, syn |-> <<>>]
+  THEN [id |-> i, uuid |-> u, live |-> live, a |-> [x \in {"class"} |-> Cls(live)], c |-> <<>>, syn |-> <<>>,
+        k |-> [x \in {"eq:class"} |-> Cls(live)]]
   ELSE [id |-> i, uuid |-> u, live |-> live, a |-> [x \in {"class", "name"} |-> IF x = "class" THEN Cls(live) ELSE <<n>>],
-        c |-> <<>>, syn |-> <<>>]
+        c |-> <<>>, syn |-> <<>>,
+        k |-> [x \in {"eq:class", "eq:name", "pres:name"} |-> CASE x = "eq:class" -> Cls(live) [] x = "eq:name" -> <<n>> [] OTHER -> <<"_">>]]
+\* model entries carry exactly the keys the transcription generates
+KeysConsistent == \A e \in ents : \A at \in {"name", "class"} : \A ty \in {"eq", "pres"} :
+                     (TK(at, ty) \in {"eq:class", "eq:name", "pres:name"}) => Keys(e, at, ty) = KeysL2(e, at, ty)
 
 Slot(i) == {e \in ents : e.id = i}
 LiveNames == UNION {Vals(e, "name") : e \in Visible(ents)}
@@ -77,7 +82,7 @@ Mirror == /\ TableMirrors(eqname, ents, "name", "eq")
           /\ TableMirrors(eqclass, ents, "class", "eq")
           /\ \A k \in Names : (IF k \in DOMAIN n2u THEN n2u[k] ELSE "-") \in N2U(ents, k)
 \* restore keeps the content (by uuid)
-ByUuid(es) == {[uuid |-> e.uuid, live |-> e.live, a |-> e.a] : e \in es}
+ByUuid(es) == {[uuid |-> e.uuid, live |-> e.live, a |-> e.a, k |-> e.k] : e \in es}
 RestoreKeeps == [][last' = "restore" => ByUuid(ents') = ByUuid(ents)]_<<ents, last>>
 \* vacuity: every action happens
 Seen(x) == last # x
